@@ -42,6 +42,12 @@ CHECKS = {
  "C19": ("exploration", "4 C19", "seeded record streams with corrupted lines, delivered through a fragmenting reader with explicit Read schedule (incl. data+EOF); per-physical-line oracle from a reference line parser",
    "Samples record sequences, corruptions of the named kinds and fragmentation schedules; each call of ReadAndConvert is attributed to the stream bytes it consumed, so 'one record per call', 'never a record from neighbouring lines' and 'self-framing' are checked exactly.",
    "reference encoder/parser of the '%d %X\\n' format; corrupted lines are classified by the strict reference parser"),
+ "C12": ("exploration", "4 C12", "simulated clock (testing/synctest) and simulated output ports with latency/error injection; playback of seeded multi-track files checked against a reference merge and exact rational tempo integration ('never before its time' on the simulated clock)",
+   "The simulator owns the clock and the ports: every Send is stamped with the fake instant, hours of playback cost microseconds, port latency and Send errors are injected. Files, selections and maps are sampled by seed with a bias to many events per time key.",
+   "fake clock is exact (real sleep overshoot not simulated); unique channel messages make every Send attributable"),
+ "C13": ("exploration", "4 C13", "simulated recording sessions: live stream with seeded inter-arrival gaps on the driver's virtual clock inside a synctest bubble (incl. the stop function's one-second sleep), checked against the receiver model, exact tick conversion, the strict SMF parser and read-back",
+   "Samples streams (channel, real-time, system common, sysex, stray data), chunk schedules, gaps from 0 ms to 10 min, tempi and resolutions; the recorded file is validated by the same strict parser as C03.",
+   "gaps bounded so that tick counts fit the format's maximum delta; non-channel traffic may be stored or dropped"),
 }
 def main():
     checks = []
@@ -74,7 +80,7 @@ def main():
         "notes": "Exit codes: 0 property held on everything explored, 1 VIOLATION (replay file given), 2 infrastructure trouble (never a VIOLATION). VERIF_SEED selects the seed, VERIF_RUNS overrides the run count.",
     }
     claimed = set(CHECKS)
-    for pid in ["C12","C13","C17"]:
+    for pid in ["C17"]:
         if pid not in claimed:
             m["not_applicable"].append({"property_id": pid, "reason": "claimed in DESIGN.md but its check is not built yet in this commit (work in progress); not a judgement that the technique does not apply"})
     m["not_applicable"].sort(key=lambda x: x["property_id"])
